@@ -30,6 +30,8 @@ type irDecl struct {
 	Pat string   `json:"pat,omitempty"`
 	C   string   `json:"c,omitempty"`  // cdef: the class
 	CS  []string `json:"cs,omitempty"` // class: the classes an object takes
+	SP  string   `json:"sp,omitempty"` // eglob: pattern of the source
+	DP  string   `json:"dp,omitempty"` // eglob: pattern of the destination
 }
 
 type irAlphabet struct {
@@ -127,6 +129,10 @@ func (d irDecl) render(style int) string {
 		return strings.Join(d.P, ".") + ".class: null"
 	case "glob":
 		return strings.Join(append(append([]string{}, d.P...), d.Pat, d.A), ".") + ": " + d.V
+	case "gedge":
+		return fmt.Sprintf("* %s *%s", arrow(d.SA, d.DA), val(d.V))
+	case "eglob":
+		return fmt.Sprintf("(%s %s %s)[*].%s: %s", d.SP, arrow(d.SA, d.DA), d.DP, d.A, d.V)
 	case "enull":
 		return fmt.Sprintf("(%s %s %s)[%d]: null", strings.Join(d.S, "."), arrow(d.SA, d.DA), strings.Join(d.D, "."), d.I)
 	}
@@ -265,7 +271,7 @@ func driveIR(c *Ctx) error {
 		var edgeish, nullish []int
 		for i, d := range al.Decls {
 			switch d.K {
-			case "edge", "eref", "enull":
+			case "edge", "eref", "enull", "gedge", "eglob":
 				edgeish = append(edgeish, i+1)
 			case "null", "anull":
 				nullish = append(nullish, i+1)
@@ -289,7 +295,23 @@ func driveIR(c *Ctx) error {
 			inputs = append(inputs, irInput{Prog: p, Style: st})
 		}
 	}
+	// a glob on connections is not repeated verbatim within a program (what a repetition does is KF-C12-1's subject)
+	repeats := func(p []int) bool {
+		seen := map[int]bool{}
+		for _, di := range p {
+			if di >= 1 && di <= n && (al.Decls[di-1].K == "gedge" || al.Decls[di-1].K == "eglob") {
+				if seen[di] {
+					return true
+				}
+				seen[di] = true
+			}
+		}
+		return false
+	}
 	for _, in := range inputs {
+		if c.Replay == nil && repeats(in.Prog) {
+			continue
+		}
 		lines := make([]string, len(in.Prog))
 		hasEdgeOp, hasNull, hasGlob := false, false, false
 		for j, di := range in.Prog {
@@ -308,7 +330,7 @@ func driveIR(c *Ctx) error {
 			if d.K == "null" || d.K == "anull" || d.K == "class" || d.K == "cdef" {
 				hasNull = true // (counts towards C10's non-trivial programs)
 			}
-			if d.K == "glob" {
+			if d.K == "glob" || d.K == "gedge" || d.K == "eglob" {
 				hasGlob = true
 			}
 		}
